@@ -30,6 +30,11 @@ Definition jhas (k : string) (j : json) : bool :=
   match j with JObj kvs => match obj_get k kvs with Some _ => true | None => false end | _ => false end.
 Definition jstr_or_empty (j : json) : string := match j with JStr s => s | _ => "" end.
 
+(* utils.rs declared_hash_alg (repair F18): the algorithm named by _sd_alg; sha-256 when the claim is absent;
+   a claim that is present but not a string, or names an unsupported algorithm, is an error *)
+Definition declared_halg (claims : json) : option halg :=
+  if jhas "_sd_alg" claims then parse_halg (jstr_or_empty (jget "_sd_alg" claims)) else Some SHA256.
+
 (* verifier.rs verify_kb *)
 Definition verify_kb (O : oracles) (kb : string) (cnf : json) : out (json * json) :=
   match jget "kty" cnf with
@@ -59,9 +64,7 @@ Definition verifier_verify_raw (O : oracles) (token : string) (kbpol : bool) : o
   if is_null cnf && (match kb with Some _ => true | None => false end) then Fail
   else if negb (is_null cnf) && (match kb with Some _ => false | None => true end) then Fail
   else
-    match jget "_sd_alg" claims with
-    | JStr a =>
-        match parse_halg a with
+        match declared_halg claims with
         | Some alg =>
             dO _ <- match kb with
                     | Some k =>
@@ -73,9 +76,7 @@ Definition verifier_verify_raw (O : oracles) (token : string) (kbpol : bool) : o
                         | _ => Fail end
                     | None => Val tt end;
             Val (hdr, claims, ds)
-        | None => Fail end
-    | _ => Fail
-    end.
+        | None => Fail end.
 
 Definition paths_json (ps : list dpath) : list (string * option string * json) :=
   map (fun p => (fst p, d_key (snd p), d_val (snd p))) ps.
@@ -83,7 +84,7 @@ Definition paths_json (ps : list dpath) : list (string * option string * json) :
 (* the part shared by Verifier::verify and Holder::verify after *_raw *)
 Definition restore_and_strip (O : oracles) (claims : json) (ds : list string)
   : out (json * list dpath) :=
-  match parse_halg (jstr_or_empty (jget "_sd_alg" claims)) with
+  match declared_halg claims with
   | Some alg =>
       dO cp <- of_res (restore_disclosures (o_hash O alg) (o_dec O) show_nat claims ds);
       Val (remove_digests (fst cp), snd cp)
@@ -105,9 +106,7 @@ Definition holder_verify_raw (O : oracles) (token : string) : out (json * json *
   | None =>
       dO hc <- o_jwt O jwt;
       let '(hdr, claims) := hc in
-      match jget "_sd_alg" claims with
-      | JStr a => match parse_halg a with Some _ => Val (hdr, claims, ds) | None => Fail end
-      | _ => Fail end
+      match declared_halg claims with Some _ => Val (hdr, claims, ds) | None => Fail end
   end.
 
 Definition holder_verify (O : oracles) (token : string) : out (json * json * list dpath) :=
@@ -133,7 +132,7 @@ Definition holder_presentation (O : oracles) (token : string) : out holder :=
       dO segs <- jwt_parts_m jwt;
       let '(_, cseg, _) := segs in
       dO claims <- of_res (o_claims O cseg);
-      match parse_halg (jstr_or_empty (jget "_sd_alg" claims)) with
+      match declared_halg claims with
       | Some alg =>
           dO cp <- of_res (restore_disclosures (o_hash O alg) (o_dec O) show_nat claims ds);
           Val {| h_jwt := jwt; h_redacted := []; h_paths := snd cp; h_kb := None |}
@@ -188,7 +187,7 @@ Definition holder_build (O : oracles) (E : build_env) (h : holder) : out string 
   else
     let prefix := presentation_prefix (h_jwt h) (selected h) in
     if bound then
-      match parse_halg (jstr_or_empty (jget "_sd_alg" claims)), h_kb h with
+      match declared_halg claims, h_kb h with
       | Some alg, Some (aud, jalg) =>
           dO kb <- e_sign E (kb_header jalg) (kb_claims aud (e_nonce E) (e_iat E) (o_hash O alg prefix));
           Val (prefix ++ kb)
